@@ -556,7 +556,7 @@ class Interp:
                             return self.call(fi, base)
                         return BoundMethod(base, fi)
                     if attr in k.consts:
-                        return self.eval(k.consts[attr], {"__class__": k, "__mod__": k.mod, "__classbody__": k})
+                        return self._class_value(k, attr)
             raise PyRaise(f"AttributeError: {attr}", node)
         if isinstance(base, SuperRef):
             mro = self.repo.mro(base.obj.cls)
@@ -575,7 +575,7 @@ class Interp:
                 return EnumMember(base.cls, attr, base.cls.consts[attr].value)
             for k in self.repo.mro(base.cls):
                 if attr in k.consts:
-                    return self.eval(k.consts[attr], {"__class__": k, "__mod__": k.mod, "__classbody__": k})
+                    return self._class_value(k, attr)
                 if attr in k.methods:
                     return BoundMethod(None, k.methods[attr])
                 if attr in getattr(k, "inner", {}):
@@ -606,6 +606,18 @@ class Interp:
                 return PyMethod(base, attr) if callable(v) else v
             raise PyRaise(f"AttributeError: '{type(base).__name__}' object has no attribute '{attr}'", node)
         raise Undecided(f"attribute {attr} of {type(base).__name__}")
+
+    def _class_value(self, k, attr):
+        """value of a class-level attribute; a mutable one (dict / list / set display) exists once per class, as in
+        Python: every instance reads - and mutates - the same object"""
+        cache = self.__dict__.setdefault("_class_values", {})
+        key = (k.name, attr)
+        if key in cache:
+            return cache[key]
+        v = self.eval(k.consts[attr], {"__class__": k, "__mod__": k.mod, "__classbody__": k})
+        if isinstance(v, (dict, list, set, USet)):
+            cache[key] = v
+        return v
 
     def e_Call(self, e, env):
         if is_logging_call(e):
@@ -1092,6 +1104,13 @@ class Builtin:
                     kwargs["key"] = (lambda x, f_=f_: interp.apply(f_, [x], {}, node))
             if n in ("sorted", "list", "tuple", "max", "min") and args and isinstance(args[0], USet):
                 args = [list(args[0])] + list(args[1:])
+            if n in ("sorted", "max", "min") and "key" not in kwargs and args and isinstance(args[0], (list, tuple)):
+                objs = [x for x in args[0] if isinstance(x, Obj)]
+                if objs and len(args[0]) >= 2:
+                    c = objs[0].cls
+                    if c is None or not any("__lt__" in k.methods or "__gt__" in k.methods for k in interp.repo.mro(c)):
+                        raise PyRaise(f"TypeError: '<' not supported between instances of '{c.short if c else 'object'}' and '{c.short if c else 'object'}'", node)
+                    raise Undecided(f"{n}() over objects ordered by their own __lt__")
             try:
                 return __builtins__[n](*args, **kwargs) if isinstance(__builtins__, dict) else getattr(__builtins__, n)(*args, **kwargs)
             except Exception as e:
